@@ -818,7 +818,7 @@ func patternBytes(n, seed int) []byte {
 	return b
 }
 
-// searchShapes: the shapes of the kernel-checked test (model op fs.shapes) plus larger ones.
+// searchShapes: the shapes of Lean's AtomicSearch.shapes (model op fs.shapes; theorem search_expected_safe) plus larger ones.
 func searchShapes() ([]searchShape, error) {
 	reply, err := askModel(`{"op":"fs.shapes"}`)
 	if err != nil {
